@@ -82,6 +82,9 @@ pub enum EOp {
     Hash2Related(Hex, bool),
     /// a copy of the element is wiped with Zeroize and then encoded / formatted (result not judged)
     ZeroizedCopyEncoded(usize),
+    /// one of the many operator impls (by value / by reference, Element / AffinePoint operands on either
+    /// side, assigning forms, scalar on the left, sums over affine iterators), selected by number
+    OperatorForm(u8, usize, usize, Hex),
 }
 
 #[derive(Clone, Debug, Serialize, Deserialize, PartialEq, Eq)]
